@@ -10,10 +10,15 @@
     NoAlias / FreeDisjoint / ContentOK over all interleavings, that the property part (PoolProp!PJudge) accepts the
     events logged by this ideal pool even with log skew (2 threads, split log points), and exports the per-thread
     operation orders.  harness/cmd/pool runs them on real goroutines (normal and -race build; plus random orders of
-    8 threads x 4 packets and an unlogged stress loop), logging Got(pkt, block) after NewPacket returned and
+    8 threads x 4 packets, an unlogged stress loop, and time-budgeted churn runs with GOMAXPROCS 2 and NumCPU: >= 64
+    goroutines each holding 1..6 live pooled packets of different lengths, re-checking the canaries of ALL its live
+    packets repeatedly and disposing several back to back; a bounded, time-spread sample of its packets is logged,
+    every canary failure and every race report is an event), logging Got(pkt, block) after NewPacket returned and
     Disposing(pkt) before Dispose is called, ordered by an atomic sequence number, with a content canary right before
     every Dispose.  PoolTrace.tla validates NoAlias on these conservative live intervals; race reports of the child
-    become Race(site) events, for which there is no transition."""
+    become Race(site) events, for which there is no transition.  The erroneous protocol "Dispose = Put; then write to
+    the block again" is an optional action of Pool.tla (LateWrite): every run checks that NoAlias, ContentOK and PJudge
+    each catch it in the model."""
 import json, os, random, shutil, threading, time
 from concurrent.futures import ThreadPoolExecutor
 import vlib
@@ -72,6 +77,8 @@ def pool_sig(b):
     e = b.get("event", {})
     if b["reason"] in ("race", "panic", "hang", "crash"):
         return pc.pure_sig(b)
+    if e.get("op") == "stress":
+        return {"reason": b["reason"], "op": "stress", "where": e.get("sig", "")}
     return {"reason": b["reason"], "op": b.get("op", ""), "src": (b.get("start") or {}).get("src", "")}
 
 
@@ -92,6 +99,18 @@ def run(ctx):
                 name, subst = plan
                 if name == "puregen":
                     return pc.gen(wd, 2, 1, workers=4)          # only the "own" family is used here
+                if name == "mutant":
+                    # the erroneous protocol "Dispose = Put; then write to the block once more" (optional action
+                    # LateWriteStep of Pool.tla) must be caught by the model's invariants and by PJudge
+                    caught = []
+                    for inv in ("NoAlias", "ContentOK", "PropAcceptsIdeal"):
+                        r = vlib.tlc("PoolMC", cfg="PoolMutant", workdir=os.path.join(wd, "mut-" + inv), timeout=600, workers=2,
+                                     cfg_subst={r"INVARIANTS \w+": "INVARIANTS " + inv})
+                        if r.violated != inv:
+                            raise vlib.Infra("Pool.tla: the late-write Dispose mutant is not caught by %s (violated=%s)" % (inv, r.violated))
+                        caught.append(inv)
+                    log("[C04] Pool.tla mutant (Dispose = Put; late write): caught by %s" % ", ".join(caught))
+                    return {"name": "mutant-late-write", "caught_by": caught}
                 r = vlib.tlc("PoolMC", workdir=os.path.join(wd, "mc-" + name), timeout=3000, workers=4 if quick else 8, heap="12g", cfg_subst=subst or None)
                 if r.violated:
                     raise vlib.Infra("Pool.tla (%s): %s violated in the model itself" % (name, r.violated))
@@ -101,10 +120,11 @@ def run(ctx):
                 log("[C04] Pool.tla %-18s: %d distinct states, %d transitions, NoAlias/FreeDisjoint/ContentOK/PropAcceptsIdeal hold, %d per-thread order sets exported (%.1fs)"
                     % (name, r.distinct, r.generated, len(beh), r.wall))
                 return {"name": name, "states": r.distinct, "transitions": r.generated, "depth": r.depth, "behaviours": len(beh), "wall": round(r.wall, 1), "beh": beh}
-            with ThreadPoolExecutor(max_workers=3) as ex:
-                rs = list(ex.map(mc, [("puregen", None)] + plans))
+            with ThreadPoolExecutor(max_workers=4) as ex:
+                rs = list(ex.map(mc, [("puregen", None), ("mutant", None)] + plans))
             kinds, g = rs[0]
-            out = rs[1:]
+            models["mutant"] = rs[1]
+            out = rs[2:]
             models["v"] = (kinds, g, out)
         except BaseException as ex:
             models["err"] = ex
@@ -127,9 +147,11 @@ def run(ctx):
         "own": ("PureTrace", ("epoch",), "sc",
                 [bpure, "-phase", "own", "-scenarios", op_, "-seed", str(ctx.seed), "-pools", "1800" if quick else "40000"], False),
         "pool": ("PoolTrace", ("pstart",), "pstart",
-                 [bpool, "-scenarios", pp_, "-seed", str(ctx.seed), "-reps", "16" if quick else "100", "-rand", "50" if quick else "2000", "-stress", "3000" if quick else "100000"], False),
+                 [bpool, "-scenarios", pp_, "-seed", str(ctx.seed), "-reps", "16" if quick else "100", "-rand", "50" if quick else "2000", "-stress", "3000" if quick else "100000",
+                  "-churn", "2000" if quick else "15000", "-procs", "2,0"], False),
         "poolrace": ("PoolTrace", ("pstart",), "pstart",
-                     [bpoolr, "-scenarios", pp_, "-seed", str(ctx.seed + 500), "-reps", "6" if quick else "20", "-rand", "25" if quick else "300", "-stress", "600" if quick else "20000"], True),
+                     [bpoolr, "-scenarios", pp_, "-seed", str(ctx.seed + 500), "-reps", "6" if quick else "20", "-rand", "25" if quick else "300", "-stress", "600" if quick else "20000",
+                      "-churn", "2000" if quick else "10000", "-procs", "2,0"], True),
     }
 
     def phase(name):
@@ -185,9 +207,11 @@ def run(ctx):
            "pool_models": mcs, "model_states_exhaustive": sum(m["states"] for m in mcs),
            "traces_validated_against_impl": pool_sc + stats["own"]["scenarios"],
            "pool_scenarios_replayed": pool_sc, "pool_orders_exported": len(beh),
-           "pool_ops": sum(stats[k]["news"] + stats[k]["disposes"] + stats[k]["stress_ops"] for k in ("pool", "poolrace")),
+           "pool_ops": sum(stats[k]["news"] + stats[k]["disposes"] + stats[k]["stress_ops"] + stats[k].get("churn_ops", 0) for k in ("pool", "poolrace")),
            "pool_block_reuses_observed": stats["pool"]["block_reuses"] + stats["poolrace"]["block_reuses"],
            "pool_scenarios_with_concurrently_live_packets": stats["pool"]["scenarios_with_concurrent_live_packets"] + stats["poolrace"]["scenarios_with_concurrent_live_packets"],
+           "pool_churn": {k: [stats[k].get(f) for f in ("churn_runs", "churn_ops", "churn_canary_checks", "churn_canary_failures", "churn_max_live_per_goroutine", "churn_sampled_events")] for k in ("pool", "poolrace")},
+           "pool_model_mutant": models.get("mutant"),
            "pool_distinct_event_orders": stats["pool"]["distinct_shapes"] + stats["poolrace"]["distinct_shapes"],
            "trace_events_validated": sum(v["lines"] for v in vals.values()), "rejected_scenarios": nrej,
            "race_reports": stats["poolrace"].get("races", 0),
